@@ -91,10 +91,18 @@ func c15Obj(v c15Val) slip.Object {
 	panic("value kind " + v.K)
 }
 
+// settings of the printer variables under which ~A / ~S are compared with princ / prin1
+var c15Envs = []string{
+	"(*print-radix* t)", "(*print-base* 16)", "(*print-base* 2) (*print-radix* t)", "(*print-base* 16) (*print-radix* t)",
+	"(*print-base* 3) (*print-radix* t)", "(*print-case* :upcase)", "(*print-case* :capitalize)", "(*print-escape* nil)",
+	"(*print-readably* t)", "(*print-length* 2)", "(*print-level* 1)",
+}
+
 func c15(args []string) {
 	out := h.NewOut()
 	defer out.Flush()
 	s := slip.NewScope()
+	seenArg := map[string]bool{}
 	h.Lines(func(line []byte) {
 		var st c15Stim
 		if err := json.Unmarshal(line, &st); err != nil {
@@ -119,6 +127,28 @@ func c15(args []string) {
 				}
 			}
 		}
+		// ~A / ~S against princ / prin1 under other settings of the printer variables (the statement's "agree with princ and
+		// prin1" is a relation: no model of the printer is needed), once per distinct argument
+		agree := []h.V{}
+		for i, a := range st.Args {
+			key, _ := json.Marshal(a)
+			if seenArg[string(key)] {
+				continue
+			}
+			seenArg[string(key)] = true
+			for _, env := range c15Envs {
+				row := h.V{"i": i + 1, "env": env}
+				for _, fd := range [][2]string{{"a", `(format nil "~a" %s)`}, {"princ", "(princ-to-string %s)"}, {"s", `(format nil "~s" %s)`}, {"prin1", "(prin1-to-string %s)"}} {
+					o := h.Eval(s, "(let ("+env+") "+fmt.Sprintf(fd[1], names[i])+")")
+					txt := "!" + o.Class
+					if str, ok := o.Val.(slip.String); ok && o.OK() {
+						txt = string(str)
+					}
+					row[fd[0]] = txt
+				}
+				agree = append(agree, row)
+			}
+		}
 		call := "fctl " + strings.Join(names, " ")
 		forms := []string{
 			"(format nil " + call + ")",
@@ -139,7 +169,7 @@ func c15(args []string) {
 				for k := i + 1; k < 3; k++ {
 					sts[k], msgs[k] = "hang", "not run"
 				}
-				out.Emit(h.V{"id": st.ID, "outs": outs, "sts": sts, "msgs": msgs, "princ": princ, "prin1": prin1})
+				out.Emit(h.V{"id": st.ID, "outs": outs, "sts": sts, "msgs": msgs, "princ": princ, "prin1": prin1, "agree": agree})
 				out.Flush()
 				os.Exit(0)
 			}
@@ -158,6 +188,6 @@ func c15(args []string) {
 				}
 			}
 		}
-		out.Emit(h.V{"id": st.ID, "outs": outs, "sts": sts, "msgs": msgs, "princ": princ, "prin1": prin1})
+		out.Emit(h.V{"id": st.ID, "outs": outs, "sts": sts, "msgs": msgs, "princ": princ, "prin1": prin1, "agree": agree})
 	})
 }
